@@ -27,11 +27,12 @@ CRASH_IS_VIOLATION = False
 RULE = ("one case = (1..3 transports websocket/rawsocket with their own max_retries in {0,1,2,5,-1}, initial delay {0.1,1.5}, "
         "growth {1,1.5,3}, jitter {0,0.1,0.5}, max delay {1,5,300}) x is_fatal classifier {none, always, never, OSError, "
         "ApplicationError, n-th error} x main {none, completes at join, completes later} x a script of per-attempt outcomes "
-        "{refused, refused (non-OSError), TCP dropped before handshake, transport handshake refused, (asyncio) either of these with connection_lost delivered "
+        "{refused, refused (non-OSError), TCP dropped before handshake, peer closes orderly (FIN) or resets before a session exists {after accept, after "
+        "the client's handshake octets, after a partial handshake reply}, transport handshake refused, (asyncio) either of these with connection_lost delivered "
         "BEFORE the future of create_connection() completes, ABORT, joined then TCP "
         "reset, joined then TCP closed, joined then router GOODBYE, joined then application leave, main returns, main "
         "raises, leave requested (application / returning main / stop()) then TCP lost BEFORE the GOODBYE reply, joined and staying joined} x stop() at {during the retry delay, connect in flight, TCP up, HELLO sent, joined} of one attempt. One "
-        "transport: ALL scripts over {refused, handshake refused, (asyncio) handshake refused before the connect result, ABORT, joined-then-lost, main raises | application leave, "
+        "transport: ALL scripts over {refused, handshake refused, orderly close after the client's handshake, (asyncio) handshake refused before the connect result, ABORT, joined-then-lost, main raises | application leave, "
         "main returns} up to length 4 (quick) / 5 (thorough) for every max_retries value, and stop() at every phase of "
         "every attempt of the scripts up to length 2 (quick) / 3 (thorough); 2-3 transports and the remaining outcome "
         "variants: random scripts from random.Random(seed, shard). Runs with an unlimited budget are capped (the "
@@ -88,6 +89,8 @@ DECIDING = {
     "next_delay_contract_evaluations": 2000,
     "jitter_draws_recorded": 200,
     "early_teardowns_judged": 100,
+    "presession_clean_closes_judged": 300,             # peer FIN (ConnectionDone / connection_lost(None)) before a session exists
+    "presession_resets_judged": 300,
     "joined_session_lifecycles_judged": 2000,          # connect/join/ready/leave/disconnect exactly once per joined session (script-derived)
     "leave_requested_then_lost_judged": 200,           # GOODBYE sent (leave()/main returned/stop()), TCP lost before the reply
     "stop_before_join_on_retry_judged": 100,           # stop() with a 2nd+ attempt in flight / connected / HELLO sent
@@ -103,7 +106,7 @@ FATAL = [None, "always", "never", "oserror", "apperror", "nth:0", "nth:1", "nth:
 SERS = ["json", "msgpack", "cbor"]
 EPS = 1e-6
 
-from vf.c14_driver import APPLICABLE, JOINING, PHASES, TERMINAL_OK  # noqa: E402
+from vf.c14_driver import APPLICABLE, JOINING, PHASES, PRESESSION, TERMINAL_OK  # noqa: E402
 
 
 # =====================================================================================================================
@@ -232,6 +235,8 @@ def judge(case, obs, fw, R=None):
         total[i] += 1
         if a.get("early"):
             cnt("early_teardowns_judged")
+        if a.get("presession"):
+            cnt("presession_clean_closes_judged" if a["presession"] == "clean" else "presession_resets_judged")
         if a["joined"]:
             ref.joined(i)
             cnt("joins_resetting_budget")
@@ -370,8 +375,8 @@ def judge(case, obs, fw, R=None):
 # =====================================================================================================================
 # workload
 # =====================================================================================================================
-CORE_FAIL = ["R", "H", "A", "L"]
-ALL_OUTCOMES = ["R", "Rx", "Hd", "H", "A", "L", "Lc", "K", "G", "Gl", "J"]
+CORE_FAIL = ["R", "H", "D1c", "A", "L"]      # D1c: orderly close by the peer after the client's handshake octets
+ALL_OUTCOMES = ["R", "Rx", "Hd", "H", "A", "L", "Lc", "K", "G", "Gl", "J"] + list(PRESESSION)
 ENDS_SCRIPT = ("G", "M", "J")
 
 
@@ -429,6 +434,16 @@ def gen_cases(tier, seed, fw):
                         out.append(("stop-1t", {
                             "transports": [transport_cfg(rng, max_retries=mr)], "main": main, "fatal": None,
                             "script": full, "stop": {"at": at, "phase": phase}, "taps": rng.random() < 0.2, "cap": len(full) + 4}))
+    # B2. every way of losing the connection before a session exists x both transport kinds x short histories
+    for main in (None, "sync"):
+        for d in PRESESSION:
+            for kind in ("websocket", "rawsocket"):
+                for shape in ([d], ["R", d], [d, d, "L"], ["L", d], [d, "J"], [d, "G"]):
+                    for mr in (0, 2, -1):
+                        rng = rng_for()
+                        out.append(("presession-1t", {
+                            "transports": [transport_cfg(rng, max_retries=mr, kind=kind)], "main": main, "fatal": None,
+                            "script": list(shape), "stop": None, "taps": rng.random() < 0.2, "cap": len(shape) + (4 if mr == -1 else 8)}))
     # C. 1-3 transports, all outcome variants, classifiers, random stop
     n_random = 2500 if tier == "quick" else 100000
     for _ in range(n_random):
